@@ -45,7 +45,7 @@ def run(chk):
     model = positional_params(ff)[0]
     src = U(ff)
     loops = [x for x in ff.body if isinstance(x, ast.For)]
-    ok = len(loops) == 1 and U(loops[0].iter) == f"{model}.named_modules()" and len(loops[0].body) == 1 and isinstance(loops[0].body[0], ast.If) and U(loops[0].body[0].test).startswith("isinstance(m, QModuleMixin") and [U(s) for s in loops[0].body[0].body] == ["m.freeze()"] and not loops[0].body[0].orelse
+    ok = len(loops) == 1 and U(loops[0].iter) == f"{model}.named_modules()" and len(loops[0].body) == 1 and isinstance(loops[0].body[0], ast.If) and U(loops[0].body[0].test) in ("isinstance(m, QModuleMixin)", "isinstance(m, (QModuleMixin,))") and [U(s) for s in loops[0].body[0].body] == ["m.freeze()"] and not loops[0].body[0].orelse
     chk.require("C09.R1", f"{mif.rel}:{ff.lineno}", ok, "freeze(model) calls m.freeze() on every QModuleMixin of model.named_modules() and does nothing else", "freeze", "module-level walk", "a nested quantized module is left unfrozen")
     # qweight
     qw = ci.own("qweight")
